@@ -160,6 +160,13 @@ fn run_real(c: &Value, batches: &[Vec<Vec<u8>>]) -> Result<(u64, Result<Value, S
             l.set_nonblocking(true).unwrap();
             let (stop2, seen2) = (stop.clone(), seen.clone());
             let close = mode == "close";
+            // "partial": the first half of the bytes a valid reply consists of, then silence on the open connection
+            let half: Vec<u8> = if mode == "partial" {
+                let all: Vec<u8> = batches.iter().flatten().flatten().copied().collect();
+                all[.. (all.len() / 2).max(1).min(all.len())].to_vec()
+            } else {
+                Vec::new()
+            };
             let h = std::thread::spawn(move || {
                 let mut held = Vec::new();
                 while !stop2.load(Ordering::Relaxed) {
@@ -171,6 +178,10 @@ fn run_real(c: &Value, batches: &[Vec<Vec<u8>>]) -> Result<(u64, Result<Value, S
                             let mut b = [0u8; 512];
                             if let Ok(n) = st.read(&mut b) {
                                 seen2.lock().unwrap().push(b[.. n].to_vec());
+                            }
+                            if !half.is_empty() {
+                                let _ = st.write_all(&half);
+                                let _ = st.flush();
                             }
                             held.push(st); // keep it open and silent
                         }
